@@ -502,6 +502,57 @@ def estimateDiffusion (op : OptPts) (glsFn : GlsFn) (t : List Pt) (dt R : Rat) (
     | .error e => .error e
     | .ok L => (estimateSimple glsFn t dt L (method = "gls")).map fun e => (e, some L)
 
+/-! ### Strengthening round H: the inputs of the anchored functions that the tracks of ONE blur-calibrated kymograph never
+    reach — the iteration budget and the storage check of `determine_optimal_points`, kymographs without a motion blur
+    constant / integrated over disjoint time windows, groups that mix kymographs -/
+
+/-- `determine_optimal_points(frame_idx, coordinate, max_iterations)`; `intStorage` is
+    `np.issubdtype(frame_idx.dtype, np.integer)` (checked before anything else). Falling out of the `for` loop returns
+    the pair the last `optimal_points` call produced ("Returning best solution"). -/
+def detOptIter (op : OptPts) (t : List Pt) (intStorage : Bool) (maxIter : Nat) : Except String (Nat × Nat) :=
+  if !intStorage then .error "TypeError" else optLoop op t maxIter (optInit t.length)
+
+/-- what `KymoTrack.estimate_diffusion` reads from the kymograph besides the line time -/
+inductive KymoKind where
+  /-- contiguous, motion blur constant `R` defined -/
+  | blur (R : Rat)
+  /-- contiguous, `motion_blur_constant` raises `NotImplementedError` (kymograph from an array, position-downsampled) -/
+  | noBlur
+  /-- `contiguous = False`: pixels integrated over disjoint sections of time (temporally downsampled) -/
+  | disjoint
+deriving Repr, DecidableEq
+
+/-- `KymoTrack.estimate_diffusion` on any kymograph kind. The third component is `true` when only the VALUE is
+    available (`blur = nan`: the variance and the localisation variance are `nan`): cve without a blur constant refuses
+    a (truthy) localisation variance, otherwise returns Vestergaard's `D`, which does not contain the blur constant. -/
+def estimateOnKymo (op : OptPts) (glsFn : GlsFn) (t : List Pt) (dt : Rat) (k : KymoKind) (method : String)
+    (maxLag : Option Int) (lv vlv : Option Rat) : Except String (Est × Option Int × Bool) :=
+  if method ≠ "cve" ∧ method ≠ "gls" ∧ method ≠ "ols" then .error "ValueError"
+  else match k with
+  | .disjoint => .error "NotImplementedError"
+  | .blur R => (estimateDiffusion op glsFn t dt R method maxLag lv vlv).map fun r => (r.1, r.2, false)
+  | .noBlur =>
+    if method = "cve" then
+      if (match lv with | some l => decide (l ≠ 0) | none => false) then .error "ValueError"
+      else if t.length < 3 then .error "RuntimeError"
+      else .ok (⟨(cveUnknown t.length (avgStep t) (m2 t) (mc t) dt 0).D, 0, 0, false⟩, none, true)
+    else (estimateDiffusion op glsFn t dt 0 method maxLag lv vlv).map fun r => (r.1, r.2, false)
+
+/-- `KymoTrackGroup.ensemble_diffusion("cve")` for tracks of SEVERAL kymographs (every track with the line time and the
+    blur constant of its own kymograph; positions in the common length unit): value and variance are the same weighted
+    mean (eqs. 57/58) over the per-track estimates; the localisation variance is not calculated (`nan`) unless a single
+    track is usable. Returns (value, variance, number of points). -/
+def ensembleCveMixed (tracks : List (List Pt × Rat × Rat)) : Except String (Rat × Rat × Nat) :=
+  let long := tracks.filter fun t => decide (3 ≤ t.1.length)
+  match long.mapM (fun t => (cve t.1 t.2.1 t.2.2 none none).map fun c => (c, t.1.length)) with
+  | .error e => .error e
+  | .ok [] => .error "IndexError"
+  | .ok [(c, n)] => .ok (c.D, c.var, n)
+  | .ok cs =>
+    let (v, vv) := meanVar (cs.map fun p => (p.1.D, (p.2 : Rat)))
+    .ok (v, vv, (cs.map (·.2)).sum)
+
+
 /-- the GLS function of a run that only exercises the error branches of the dispatcher -/
 def glsUnmodelled : GlsFn := fun _ _ => .error "gls-not-modelled"
 
@@ -925,6 +976,41 @@ def handle : List String → Option String
     else some (showExcept (fun (r : Est × Option Int) =>
       showRats [r.1.value] ++ " " ++ (if r.1.varDefined then showRat r.1.var else "nonfinite") ++ " " ++ showRats [r.1.lv]
         ++ " " ++ showOptInt r.2) (estimateDiffusion optimalPointsT (if t.length ≤ 7 then glsModelled else glsUnmodelled) t dt R method L lv vlv))
+  | ["c09.optptsk", fs, xs, k, st] => do
+    let t ← mkTrack? fs xs
+    let k ← nat? k
+    if st != "int" ∧ st != "float" then none
+    else if st == "int" ∧ 5 ≤ t.length ∧ signTies (ptsOf (msdCounts t none)) then some "tie"
+    else some (showExcept (fun (k : Nat × Nat) => toString k.1 ++ " " ++ toString k.2)
+      (detOptIter optimalPointsT t (st == "int") k))
+  | ["c09.estk", fs, xs, dt, kind, method, L, lv, vlv] => do
+    let t ← mkTrack? fs xs
+    let dt ← rat? dt
+    let kind ← (if kind == "noblur" then some KymoKind.noBlur else if kind == "disjoint" then some KymoKind.disjoint
+      else (rat? kind).map KymoKind.blur)
+    let L ← optInt? L
+    let lv ← optRat? lv
+    let vlv ← optRat? vlv
+    let auto := (method == "ols") && (L == none || L == some 0) && lv == none && vlv == none && kind != KymoKind.disjoint
+    if auto ∧ 5 ≤ t.length ∧ signTies (ptsOf (msdCounts t none)) then some "tie"
+    else some (showExcept (fun (r : Est × Option Int × Bool) =>
+      showRats [r.1.value] ++ " " ++ (if r.1.varDefined ∧ !r.2.2 then showRat r.1.var else "nonfinite") ++ " "
+        ++ (if r.2.2 then "nonfinite" else showRats [r.1.lv]) ++ " " ++ showOptInt r.2.1)
+      (estimateOnKymo optimalPointsT (if t.length ≤ 7 then glsModelled else glsUnmodelled) t dt kind method L lv vlv))
+  | ["c09.enscvemix", fs, xs, dts, Rs] => do
+    let ts ← mkTracks? fs xs
+    let dts ← ratList? dts
+    let Rs ← ratList? Rs
+    if ts.length ≠ dts.length ∨ ts.length ≠ Rs.length then none
+    else
+      let tr := ts.zip (dts.zip Rs)
+      some (showExcept (fun (e : Rat × Rat × Nat) =>
+        let long := tr.filter fun t => decide (3 ≤ t.1.length)
+        let sc : List (Cve × Rat) := long.map fun t => (cveScale t.1 t.2.1 t.2.2 none none, (t.1.length : Rat))
+        let (sv, svv) := match sc with
+          | [(c, _)] => (c.D, c.var)
+          | _ => meanVarScale (sc.map fun (p : Cve × Rat) => (p.1.D, p.2))
+        showRats [e.1, e.2.1] ++ " " ++ toString e.2.2 ++ " " ++ showRats [sv, svv]) (ensembleCveMixed tr))
   | _ => none
 
 end Verif.C09
